@@ -11,12 +11,14 @@ V = '/verif'
 def sh(cmd, cwd=None, timeout=3000):
     r = subprocess.run(cmd, shell=True, cwd=cwd, stdout=subprocess.PIPE, stderr=subprocess.STDOUT, text=True, timeout=timeout)
     return r.returncode, r.stdout
+WT = os.environ.get('SEED_WT', '/tmp/wt')
+OFFSET = int(os.environ.get('SEED_OFFSET', '0'))
 def confirm(pid):
-    wt, out = '/tmp/wt/' + pid, '/tmp/wt/%s.out' % pid
+    wt, out = WT + '/' + pid, '%s/%s.out' % (WT, pid)
     for i in range(1, 6):
         pf = '%s/patch%d.diff' % (out, i)
         if not os.path.exists(pf): continue
-        d = '%s/seeded/%s/%d' % (V, pid, i); os.makedirs(d, exist_ok=True)
+        d = '%s/seeded/%s/%d' % (V, pid, i + OFFSET); os.makedirs(d, exist_ok=True)
         meta = {}
         try: meta = json.load(open('%s/meta%d.json' % (out, i)))
         except Exception as e: meta = {'agent_meta_error': str(e)}
@@ -49,7 +51,9 @@ def confirm(pid):
         print(pid, i, 'confirmed' if res['confirmed'] else 'NOT CONFIRMED', {k: v for k, v in res.items() if k.startswith('demo_on') or k in ('applies', 'suite_passes')})
 def evaluate(pid, checks=None):
     base = '%s/seeded/%s' % (V, pid)
-    for n in sorted(os.listdir(base)):
+    only = os.environ.get('SEED_ONLY')
+    for n in sorted(os.listdir(base), key=lambda x: int(x) if x.isdigit() else 0):
+        if only and not (n.isdigit() and int(n) > int(only)): continue
         d = '%s/%s' % (base, n); mf = d + '/meta.json'
         if not os.path.exists(mf): continue
         meta = json.load(open(mf))
